@@ -192,6 +192,19 @@ static void deviations_of(const char *name, const char *d, size_t n, int is_diff
   /* truncation at every byte offset (big documents: every 8th) */
   size_t step = n > 40000 ? 8 : 1;
   for (size_t cut = 0; cut < n && !mc_deadline(); cut += step) if (MINE() && mc_case("%s :: truncated at byte %zu", name, cut)) { sb_reset(&m); sb_putn(&m, d, cut); TRY("truncate"); }
+  /* bound 2, one targeted family: a closing quote of an attribute value that contains an escape is removed AND the
+   * document is cut at every one of the next 48 bytes (the parser then scans for the quote up to the end of the buffer:
+   * where its cursors stop is exactly what an exact-size buffer under ASan observes) */
+  for (size_t i = 0; i + 1 < n && !mc_deadline(); i++) {
+    if (d[i] != '"' || i == 0) continue;
+    /* closing quote: the value before it holds an '&' since its opening quote */
+    size_t o = i; int amp = 0; while (o > 0 && d[o - 1] != '"' && d[o - 1] != '<') { if (d[o - 1] == '&') amp = 1; o--; }
+    if (!amp || o == 0 || d[o - 1] != '"' || (o >= 2 && d[o - 2] != '=')) continue;
+    for (size_t cut = i + 1; cut <= i + 48 && cut <= n; cut++) {
+      if (!MINE() || !mc_case("%s :: quote at byte %zu removed and truncated at byte %zu", name, i, cut)) continue;
+      sb_reset(&m); sb_putn(&m, d, i); sb_putn(&m, d + i + 1, cut - i - 1); TRY("quote+truncate");
+    }
+  }
   /* flips */
   for (size_t i = 0; i < n && !mc_deadline(); i++) {
     if (d[i] != '<' && d[i] != '>' && d[i] != '"') continue;
